@@ -382,7 +382,7 @@ func runServerScript(c *c15Case) (c15Obs, error) {
 	if c.Role == "client_tls" && !c.Ca && c.Op.How == "noccs_plainfin" {
 		return runTLSServerScript(c)
 	}
-	if strings.HasPrefix(c.Op.How, "reneg_") {
+	if strings.HasPrefix(c.Op.How, "reneg_") || strings.HasPrefix(c.Op.How, "shvers_") {
 		if c.Role == "client_tls" && !c.Ca {
 			return runTLSRenegScript(c)
 		}
@@ -773,6 +773,13 @@ func runTLSRenegScript(c *c15Case) (c15Obs, error) {
 		}
 		hello := func(sr []byte) []byte {
 			sh := append([]byte{3, 3}, sr...)
+			if strings.HasPrefix(c.Op.How, "shvers_") {
+				// a consistent server that names a version the client did not offer and cannot speak, and otherwise runs
+				// the TLS 1.2 handshake correctly (its own transcript and Finished cover the hello as sent)
+				var v int
+				fmt.Sscanf(c.Op.How, "shvers_%x", &v)
+				sh[0], sh[1] = byte(v>>8), byte(v)
+			}
 			return hsMsg(2, append(sh, 0, 0x00, 0x9c, 0))
 		}
 		keys := func(master, cr, sr []byte) (cw, sw *gcmHalf) {
@@ -830,6 +837,16 @@ func runTLSRenegScript(c *c15Case) (c15Obs, error) {
 		th = sha256.Sum256(transcript)
 		ps.Write([]byte{20, 3, 3, 0, 1, 1})
 		ps.Write(sw.seal(22, hsMsg(20, prfSHA256(master, "server finished", th[:], 12))))
+		if strings.HasPrefix(c.Op.How, "shvers_") {
+			ps.Write(sw.seal(23, []byte("hello")))
+			script <- ""
+			for i := 0; i < 4; i++ {
+				if _, err := readRecord(ps); err != nil {
+					return
+				}
+			}
+			return
+		}
 		// ---- HelloRequest, second handshake under the first one's keys ----
 		ps.Write(sw.seal(22, hsMsg(0, nil)))
 		next := func(want byte) []byte {
